@@ -4,8 +4,9 @@
    network events, every critical section that asks the network for Connectedness (Run), timer firings
    forced by the harness, Connect calls and their outcomes, observations of handler state (Obs) and
    quiescence points (Quiet: no service goroutine is running).  Not logged, hence silent: the two halves
-   of handler.stop() inside Stop/RemovePeer, goroutines that return without asking the network, the
-   Reset after a failed Connect, and timers firing on their own.  The properties are part of acceptance
+   of handler.stop() inside Stop/RemovePeer, goroutines that return without asking the network, and the
+   Reset after a failed Connect.  Timers never fire on their own during a run (delays are >= 7.5 s, a run
+   takes milliseconds and every observed armed timer is pushed an hour ahead): TimerFire is always logged.  The properties are part of acceptance
    (PropertyHolds): a history is accepted iff SOME explanation satisfies them throughout.  *)
 EXTENDS Peering, Integers, Sequences
 
@@ -68,7 +69,7 @@ TQuiet      == /\ IsEvent("Quiet")
 Silent == /\ l' = l /\ l <= Len(Trace)
           /\ \E h \in Hs : \/ HCancel(h) \/ HStopTimer(h) \/ RunStartNoop(h)
                            \/ RunStopcNoop(h, "stopc") \/ RunStopcNoop(h, "rstopc")
-                           \/ RecFailReset(h) \/ TimerFire(h)
+                           \/ RecFailReset(h)
 
 TNext == \/ TReset \/ TAddPeer \/ TRemoveCall \/ TRemoveRet \/ TStopCall \/ TStopRet \/ TStartCall \/ TStartRet
          \/ TEnvConn \/ TEnvDisc \/ TRun \/ TTimerFire \/ TDialStart \/ TDialRet \/ TObs \/ TQuiet \/ Silent
